@@ -766,6 +766,14 @@ def laws(rng, tier, ctx):
             yield Finding('violation', dict(tag='law-getcallargs', lines=call_lines(sig, args, kw, ('getcallargs',))),
                           'getcallargs gives %r, inspect.getcallargs %r' % (got, exp))
             continue
+        # ... also of a DECORATED f ("replicates inspect.getcallargs with support to functions within decorators")
+        wcls = rng.choice(CLASSES)
+        g = construct(wcls, deco_params(rng, wcls), f)
+        count += 1
+        gotw = res_val(lambda: getcallargs(g, *args, **kw))
+        if gotw != exp:
+            yield Finding('violation', dict(tag='law-getcallargs-decorated', lines=call_lines(sig, args, kw, ('getcallargs',)), values=[wcls]),
+                          'getcallargs(%s(f), ...) gives %r, inspect.getcallargs(f, ...) %r' % (wcls, gotw, exp))
         direct = f(*args, **kw)
         rt = res_val(lambda: call_with_callargs(f, getcallargs(f, *args, **kw)))
         if rt != direct:
